@@ -1016,7 +1016,8 @@ static int gw_run(const int *prog, int n) {
     for (int fd = 0; fd < MAXFD; fd++) if (vino[fd].w > 0) { __real_close(vino[fd].w); vino[fd].w = 0; }
     errno_to_leave = 0;
     signals_drain();
-    task_release_on_join = 0; task_joined = 0; task_free_run = 0;
+    task_release_on_join = 0; task_joined = 0;
+    if (task_mode) __atomic_store_n(&task_free_run, 0, __ATOMIC_SEQ_CST);      /* (a global: only the task configurations - one replaying thread - use it) */
     if (task_mode) { while (sem_trywait(&task_notified) == 0); for (int i = 0; i < NM; i++) for (int k2 = 0; k2 < NTK; k2++) { TK[i][k2].entered = TK[i][k2].exited = TK[i][k2].released = 0; while (sem_trywait(&TK[i][k2].gate) == 0); } }
     for (int k2 = 1; k2 <= NKEY; k2++) { ufd_r[k2] = ufd_w[k2] = -1; if (k2 <= nkeys) ufd_open(k2); }
     cur_state = gw_edges[prog[0]].src;
